@@ -1,10 +1,10 @@
 package main
 
 import (
-	"os"
 	"encoding/hex"
 	"fmt"
 	"math"
+	"os"
 	"runtime/debug"
 	"sort"
 	"strconv"
@@ -73,8 +73,10 @@ func (v simVotes) Get(i int) corecomet.VoteInfo { return simVote{v[i]} }
 
 type simVote struct{ v abci.VoteInfo }
 
-func (v simVote) Validator() corecomet.Validator        { return simVal{v.v.Validator} }
-func (v simVote) GetBlockIDFlag() corecomet.BlockIDFlag { return corecomet.BlockIDFlag(v.v.BlockIdFlag) }
+func (v simVote) Validator() corecomet.Validator { return simVal{v.v.Validator} }
+func (v simVote) GetBlockIDFlag() corecomet.BlockIDFlag {
+	return corecomet.BlockIDFlag(v.v.BlockIdFlag)
+}
 
 // ---------------------------------------------------------------------------
 // Steps, results, monitors
@@ -172,12 +174,12 @@ type Runner struct {
 	QS alliancetypes.QueryServer
 	MS alliancetypes.MsgServer
 
-	shadowHash string
-	expectHash string
+	shadowHash   string
+	expectHash   string
 	shadowStores map[string]string
-	lastEvents []abci.Event
-	haltPre    *Snap
-	curBlock   *Block
+	lastEvents   []abci.Event
+	haltPre      *Snap
+	curBlock     *Block
 
 	// consensus inputs of the block being executed (used by the ABCI differential executor)
 	lastVotes    []abci.VoteInfo
